@@ -19,15 +19,11 @@ From BigNum Require Import Base BaseLemmas X86 AddSub SpecAddSub AddSubProofs
   Bits SpecBits BitsProofsU BitsProofsI
   PgrLoop PgrLoopProofs Pow SpecPow PowProofs
   Forms FormsLeaves FormsProofs FormsLeavesProofs FormsAddSubLeaves
-  Extracted InstAddSub InstMul InstDiv InstBits InstPgr InstForms.
+  Extracted InstAddSub InstMul InstDiv InstBits InstPgr InstBigOps InstForms.
 Import ListNotations.
 Open Scope Z_scope.
 
 Local Notation P := Extracted.div.
-
-(* the big multiplication the pow model is parameterised by, at the real model (C02) *)
-Lemma umul_exact : bmul_exact (Mul.umul mul).
-Proof. intros a b Ca Cb. apply umul_spec; auto using mul_params_ok. Qed.
 
 Definition uval (r : outcome (list Z)) : outcome Z := omap val r.
 Definition ivalo (r : outcome bigint) : outcome Z := omap ival r.
